@@ -1,24 +1,24 @@
 SPECIFICATION Spec
 CONSTANTS
-  Nodes = {1, 2, 3}
+  Nodes = {1, 2, 3, 4, 5}
   Epoch = 2
-  JoinSet = {}
+  JoinSet = {5}
   RemainSet = {1, 2, 3}
-  LeaveSet = {}
+  LeaveSet = {4}
   Leader = 1
-  Thr = 2
+  Thr = 3
   Period = 3
   Genesis = 100
   TMin = 110
-  TMax = 112
+  TMax = 110
   LateSet = {}
   RankChoices <- RotRank
   PermuteLists = FALSE
   AtomicGossip = TRUE
-  AtomicExec = TRUE
+  AtomicExec = FALSE
   MaxDrop = 0
   DropKinds = {"D", "R", "J"}
   Offline = {}
-INVARIANTS TypeOK Inv_SameTerms Inv_OrderIndependent Inv_OwnIndex Inv_SameQual Inv_NoLoss Inv_EchoHeals Inv_SameGroupButTransition
+INVARIANTS TypeOK Inv_SameTerms Inv_OrderIndependent Inv_OwnIndex Inv_SameQual Inv_NoLoss Inv_EchoHeals Inv_SameGroupButTransition Inv_SameGroup
 VIEW View
 CHECK_DEADLOCK FALSE
